@@ -4,6 +4,7 @@ import (
 	"errors"
 	"fmt"
 	"strconv"
+	"strings"
 
 	opchildtypes "github.com/initia-labs/OPinit/x/opchild/types"
 
@@ -262,6 +263,10 @@ func c13Genesis(run *mon.Run, rng *mon.Rand, samples int) {
 			k.Operator = NewValKey(x.op).Operator
 			v := k.Validator()
 			v.ConsPower = x.power
+			if li%3 == 1 {
+				// the genesis file spells the operator address in upper case (the address codec reads it as the same operator)
+				v.OperatorAddress = strings.ToUpper(v.OperatorAddress)
+			}
 			gvals = append(gvals, v)
 			if x.power > 0 {
 				positive++
